@@ -149,6 +149,14 @@ def _go_out_of_service_on_empty(
     #   to out of service.
     # - report stranded passengers if we're servicing a trip when this happens.
     next_state = OutOfService.build(vehicle_id)
+    vehicle = sim.vehicles.get(vehicle_id)
+    if vehicle is not None:
+        # release what the interrupted activity holds (the dispatch record of the request the
+        # vehicle was heading to); an activity that refuses to exit (passengers on board) is
+        # stranded as it is
+        exit_error, exit_sim = vehicle.vehicle_state.exit(next_state, sim, env)
+        if exit_error is None and exit_sim is not None:
+            sim = exit_sim
     return next_state.enter(sim, env)
 
 
